@@ -20,6 +20,11 @@ CHECKS = {
    text='Bounded exhaustive exploration of surface cards: every mnemonic with every parameter vector of a finite alphabet (full product, deviation-bounded for SQ/GQ) is converted in a one-surface deck; each emitted SURF is proved to have the zero set of the MCNP equation by polynomial identification on a unisolvent point set (a decision for all points), and the -s/+s probe volumes are compared with the MCNP sense on a lattice realising every sign vector.',
    note='Trusted: MCNP surface equations/sense rules and TRIPOLI-4 surface conventions (DESIGN 5). Continuous parameters are covered at the alphabet values only. Excluded: SQ with positive-sense centre, spindle tori.',
    tech='explicit enumeration of cards; polynomial identification + sign-vector comparison per card'),
+
+ 'C03': dict(cat='model_checking', ref='4/C03',
+   text='Bounded exhaustive exploration of macrobody cards: every body kind with every orientation, handedness and parameterisation of a finite alphabet (full product) is converted with probe cells -b, +b, +b.k and -b.k for every facet; each emitted surface is identified with a facet of the reference solid as a polynomial, and the probe volumes are compared with the metric definition at complete plane-arrangement witnesses (all-plane bodies) or witnesses plus a lattice (curved bodies).',
+   note='Trusted: macrobody definitions and facet numbering of the MCNP manual; ELL with positive last entry follows the empirical rule documented upstream; facets 3-6 of a 9-entry RHP are not probed.',
+   tech='explicit enumeration of cards; polynomial identification of facets + complete arrangement witnesses'),
 }
 NA_REASON = 'check not built yet in this build round (planned, see DESIGN.md section 4); no claim is made'
 
